@@ -598,3 +598,36 @@ def e7(ctx):
                       'afterwards in the same transaction block: writes through this method never evict, so the cache '
                       'grows past its size limit' % q, info['f'].loc(), info['wit']))
     return obs
+
+
+# ---------------------------------------------------------------------- E8
+@rule('E8', floor=1, title="the per-write cull removes expired rows under every eviction policy, 'none' included")
+def e8(ctx):
+    """Policy 'none' (Deque, Index, the lock recipes) switches size eviction off, not expiry: "Cache items will still
+    be lazily removed if they expire".  Decided on the paths of set() with the cull helper inlined: a path that has
+    committed to policy 'none' (CHOICE) with a non-zero budget must have run the expired-rows SELECT before."""
+    f = ctx.method('Cache', 'set')
+    h = _cull_helper(ctx)
+    ok, wit, n = True, None, 0
+    for p in ctx.paths(f, 'default'):
+        if p.kind != 'return':
+            continue
+        tr = p.trace
+        none_choice = [e for e in tr if e.kind == 'CHOICE' and e.d.get('chosen') == 'none' and (e.fn is h or h.qual in e.stack)]
+        if not none_choice:
+            continue
+        zero_budget = any(e.kind == 'TEST' and e.d['truth'] and e.d['val'].k == 'cmp' and e.d['val'].a[0] == ('Eq',)
+                          and any(x.is_const and x.val == 0 for x in e.d['val'].a[1])
+                          and any(y.k in ('selfattr', 'param') and y.a[-1 if y.k == 'selfattr' else 0] in ('cull_limit', 'limit')
+                                  for x in e.d['val'].a[1] for y in values_in(x))
+                          for e in tr if (e.fn is h or h.qual in e.stack))
+        if zero_budget:
+            continue
+        n += 1
+        expired = [e for e in sql_events(tr, 'select', 'Cache') if (e.fn is h or h.qual in e.stack)
+                   and e.d['stmt'].where is not None and 'expire_time' in (e.d['stmt'].text or '')]
+        if not expired:
+            ok, wit = False, fmt_trace(tr)
+    return [Ob('E8', 'Cache._cull/expired-removed-under-policy-none', ok and n > 0,
+               "with eviction_policy='none' the per-write cull returns before it has looked for expired rows: expired "
+               'items (and their value files) of Deque/Index/recipe caches are never removed lazily', h.loc(), wit)]
